@@ -326,11 +326,12 @@ class Impl:
 
     def step(self, op):
         o = op["op"]
+        self._np = bool(op.get("_np"))
         return getattr(self, "op_" + o.replace(".", "_"))(op)
 
-    @staticmethod
-    def v(j):
-        """protocol value -> Python value as the generator meant it (ints stay ints, floats floats)"""
+    def v(self, j):
+        """protocol value -> Python value as the generator meant it (ints stay ints, floats floats; with the op flag
+        `_np` floats arrive as numpy scalars, as they do when a caller computes them with numpy)"""
         if j is None:
             return None
         if isinstance(j, int):
@@ -338,7 +339,7 @@ class Impl:
         if isinstance(j, dict):
             if "q" in j:
                 f = Fraction(j["q"])
-                return float(f)
+                return np.float64(float(f)) if getattr(self, "_np", False) else float(f)
             if "s" in j:
                 return j["s"]
             return object()
@@ -618,6 +619,9 @@ class Impl:
         self.pool[op["to"]] = tools.makeVaryingSequence(
             self.g(op["base"]), self._pad(ch, lens[0], 1), self._pad(nm, lens[1], "x"), self._pad(ar, lens[2], 0), self._pad(it, lens[3], [0]))
 
+    def op_sq_SR(self, op):
+        return q(self.g(op["id"]).SR)
+
     def op_heap_summary(self, op):
         import heapwalk
         res, self._heap_prev = heapwalk.summary(self.pool, op["vars"], getattr(self, "_heap_prev", {}))
@@ -829,7 +833,7 @@ def cmp_seqx(impl, model, path, tol):
 
 
 READONLY_SIMPLE = {"bp.eq", "el.eq", "sq.eq", "sq.check", "bp.points", "el.points", "sq.points"}
-RAT_RESULT = {"bp.duration", "el.duration", "sq.duration"}
+RAT_RESULT = {"sq.SR", "bp.duration", "el.duration", "sq.duration"}
 
 
 def compare_op(op, ri, rm, tol=1e-9, errclass=True):
